@@ -53,6 +53,10 @@ def run_proxy_property(prop, tier, seed, fams, nquick, nthorough, rule, assumpti
                 key = (p["event"].get("a"), tuple(p["cats"]))
                 if key in seen:
                     continue
+                if not confirmed(f, p, prop):
+                    notes.append("family %s behaviour %s: a mismatch (line %d, %s) did not reproduce when replayed alone; not counted" %
+                                 (f["name"], p["behaviour"], p["line"], ",".join(p["cats"])))
+                    continue
                 seen.add(key)
                 path = vlib.save_replay(prop, "%s-%s-seed%d.json" % (f["name"], vlib.digest(p["replay_input"]), seed),
                                         {"kind": "proxydrv", "problem": {k: p[k] for k in ("props", "cats", "line", "event", "context", "kind")},
@@ -76,6 +80,18 @@ def run_proxy_property(prop, tier, seed, fams, nquick, nthorough, rule, assumpti
         print("NOTE " + nl)
     vlib.write_evidence(prop, tier, level, cov, time.time() - t0, len(viol), assumptions)
     return viol
+
+
+def confirmed(f, p, prop):
+    """see cachecommon.confirmed"""
+    for _ in range(2):
+        try:
+            r = proxyfam.replay_and_validate(f, p["replay_input"]["behaviours"], inp=dict(p["replay_input"]))
+        except vlib.Inconclusive:
+            continue
+        if any(prop in q["props"] for q in r["problems"]):
+            return True
+    return False
 
 
 def replay_file(prop, path):
